@@ -608,7 +608,10 @@ func (l *Ledger) applyBatch(res *BlockResult, h uint32, te *txEntry, rates, avgs
 			return -1
 		}
 		get(p.Asset).Sub(get(p.Asset), u(p.Amt))
-		if p.Conv != 0 {
+		if p.Conv == PEG && h >= l.act("ConvLimit") {
+			// bank-limited PEG is paid after all batches of the block are known:
+			// it cannot fund a later transaction of the same batch
+		} else if p.Conv != 0 {
 			out, _ := l.convert(h, p.Amt, rates[p.Asset], avgs[p.Asset], rates[p.Conv], avgs[p.Conv])
 			get(p.Conv).Add(get(p.Conv), u(out))
 		} else {
